@@ -45,7 +45,16 @@ fn known_f_c02_9(before: &Url, ip: &std::net::IpAddr) -> bool {
 fn known_step_c02(before: &Url, op: &verif_harness::urlops::Op) -> bool {
     use verif_harness::urlops::Op;
     let outside = !before.is_special() && matches!(before.host(), Some(url::Host::Ipv4(_)));
-    outside || matches!(op, Op::SetIpHost(ip) if known_f_c02_9(before, ip))
+    outside || matches!(op, Op::SetIpHost(ip) if known_f_c02_9(before, ip)) || known_f_c07_8(before, op)
+}
+
+/// the class F-C07-8 seen from C02 (coq/Properties/C02.v C02_F_C07_8_witness, C02_statement_refuted): quirks::set_host
+/// on a non-special URL that has a password and no user name - an empty host part is accepted (the code looks at the
+/// user name and the port only) and gives scheme://:pw@/..., which does not re-parse.  Over-approximation: every quirks
+/// host call on such a URL.
+fn known_f_c07_8(before: &Url, op: &verif_harness::urlops::Op) -> bool {
+    use verif_harness::urlops::Op;
+    matches!(op, Op::Quirk("host", _)) && !before.is_special() && before.username().is_empty() && before.password().is_some()
 }
 
 const SCHEMES2: [&str; 14] =
